@@ -49,7 +49,7 @@ for n, fired, err in results:
     meta_p = os.path.join(d, 'meta.json')
     meta = json.load(open(meta_p)) if os.path.exists(meta_p) else {}
     meta['detected_by'] = fired
-    if kind in ('seeded', 'seeded2'):
+    if kind.startswith('seeded'):
         target = n.split('-')[0]
         meta['target_check_fires'] = target in fired
         print('%-8s target %s: %s | fired: %s' % (n, target, 'CAUGHT' if target in fired else 'MISSED', ', '.join(sorted(fired)) or '-'))
